@@ -73,7 +73,10 @@ def build(ctx):
     drv, err = common.go_test_build("examples/segmenter", "c11_segmenter.test")
     if drv is None:
         raise common.CheckError("tagged test driver examples/segmenter does not build:\n" + err[-2000:])
-    bins = {}
+    cdrv, err = common.go_test_build("examples/combine-segs", "c11_combine_segs.test")
+    if cdrv is None:
+        raise common.CheckError("tagged test driver examples/combine-segs does not build:\n" + err[-2000:])
+    bins = {"c11_combine_segs.test": cdrv}
     for pkg, name in (("examples/segmenter", "c11_segmenter"), ("examples/resegmenter", "c11_resegmenter"),
                       ("examples/combine-segs", "c11_combine_segs")):
         b, err = common.go_build_repo_cmd(pkg, name)
@@ -88,7 +91,7 @@ def build(ctx):
 
 def _tool_args(bins):
     return ["-segmenter", bins["c11_segmenter"], "-reseg", bins["c11_resegmenter"],
-            "-combine", bins["c11_combine_segs"], "-tmp", TMP]
+            "-combine", bins["c11_combine_segs"], "-combdrv", bins["c11_combine_segs.test"], "-tmp", TMP]
 
 
 def run(ctx):
@@ -163,6 +166,14 @@ def run(ctx):
             classes[k] = classes.get(k, 0) + 1
             if f[-1].startswith("ok:") and "+" in f[-1]:
                 multi["W"] = multi.get("W", 0) + 1
+        elif f[0] == "C":
+            k = "C:%s:k=%d:%s" % (f[1][1], f[4].count("#") + 1, f[-1].split("|")[0])
+            classes[k] = classes.get(k, 0) + 1
+            if f[-1].startswith("ok|") and f[-1].count("=") >= 2 and "=-" not in f[-1]:
+                multi["C"] = multi.get("C", 0) + 1
+        elif f[0] == "I":
+            k = "I:%s:%s" % (f[2], f[-1].split("|")[0])
+            classes[k] = classes.get(k, 0) + 1
         elif f[0] in ("V", "Y"):
             if "+" in f[-1]:
                 multi[f[0]] = multi.get(f[0], 0) + 1
